@@ -37,10 +37,16 @@ class SpartanProtocol(BaseGopherProtocol):
         self.selector = urllib.parse.unquote(path, errors="surrogateescape")
         self.selector = self.slashnormalize(self.selector)
 
-        content_length = int(content_length)
-        if content_length:
-            data = self.rfile.read(content_length)
-            self.searchrequest = data.decode(errors="surrogateescape")
+        try:
+            content_length = int(content_length)
+            if content_length:
+                data = self.rfile.read(content_length)
+                self.searchrequest = data.decode(errors="surrogateescape")
+        except (ValueError, OverflowError):
+            # More digits than int() converts, or more bytes than can be
+            # asked for in one read.
+            self.write_status(4, "Bad content length")
+            return
 
         try:
             handler = self.gethandler()
